@@ -254,13 +254,9 @@ def _like_parse(cfg, path):
         chain = nf[1]
         # characters the path condition excludes from v ('%' in v, '_' in v were observed False)
         excluded = set()
-        import ast as _ast
         for lit in path.pc:
-            txt = str(lit).replace('\n', ' ')
-            m = re.match(r"Not\(contains!.*\|(\[\('lit', .*\)\])\)$", txt)
-            if m:
-                try: excluded.add(_ast.literal_eval(m.group(1))[0][1])
-                except Exception: pass
+            m = re.match(r"Not\(charin!v!(\d+)\)$", str(lit).replace('\n', ' '))
+            if m: excluded.add(chr(int(m.group(1))))
         return chain, esc, excluded
     # expression item: REPLACE chain built in the SQL AST, wrapped in CONCAT with the wildcards
     parts = tmpl[1:] if tmpl[0] == 'CONCAT' else [tmpl]
